@@ -772,6 +772,33 @@ def r8_per_sample_split_reaches_nested_values(repo=None):
                             and idx < len(c.args) and isinstance(c.args[idx], ast.Name):
                         out += producers(cf, c.args[idx].id, c, depth + 1)
         return out
+    # the rule holds for every batch size: nothing but the value's own type decides whether `len(value) == N` is asked at all
+    nname = cmp_.comparators[0].id
+    par0 = {}
+    for n_ in ast.walk(fn):
+        for ch_ in ast.iter_child_nodes(n_):
+            par0[ch_] = n_
+    an_, ch0 = par0.get(cmp_), cmp_
+    while an_ is not None and an_ is not fn:
+        if isinstance(an_, ast.If) and ch0 is not an_.test and not any(ch0 is x for x in ast.walk(an_.test)):
+            terms_ = an_.test.values if isinstance(an_.test, ast.BoolOp) else [an_.test]
+            for t_ in terms_:
+                core = t_.operand if isinstance(t_, ast.UnaryOp) and isinstance(t_.op, ast.Not) else t_
+                if isinstance(core, ast.Call) and pyfront.call_name(core) == "isinstance" and core.args and isinstance(core.args[0], ast.Name) and core.args[0].id == var:
+                    continue
+                names_ = {x.id for x in ast.walk(t_) if isinstance(x, ast.Name)}
+                # a local that stands for a test on the batch size
+                for nm_ in list(names_):
+                    for a_ in ast.walk(fn):
+                        if isinstance(a_, ast.Assign) and any(isinstance(tt, ast.Name) and tt.id == nm_ for tt in a_.targets):
+                            names_ |= {x.id for x in ast.walk(a_.value) if isinstance(x, ast.Name)}
+                if nname in names_:
+                    r.violation(m.rel, "%s.%s" % (W, name), "`%s` guards `%s`" % (norm(ast.unparse(t_))[:40], norm(ast.unparse(cmp_))), "the rule 'a value whose "
+                                "length equals the number of samples gives one element per sample' is switched off for some batch sizes (a "
+                                "single sample): `{'a': [7]}` written for one index reads back as array([7]) instead of 7", line=an_.lineno)
+                    r.guard(1)
+                    return r
+        ch0, an_ = an_, par0.get(an_)
     prods = producers(fn, var, cmp_)
     if not prods:
         raise AnalysisError("%s.%s: where the value `%s` of the per-sample split comes from was not recognised" % (W, name, var))
@@ -817,7 +844,8 @@ EXPLANATION = (
     'or the dict-of-arrays distribution rule. R3 also: a loop that fills the result while iterating the h5py file object '
     'itself (HDF5 name order) is a violation. R8: the value tested by `len(value) == N` in the batch write is produced by'
     " an iteration over the module's recursive item generator applied to `data` (followed through helper parameters to "
-    'the enclosing loop or comprehension); an iteration over .items() is the violation.')
+    'the enclosing loop or comprehension); an iteration over .items() is the violation. R8 also: no test that depends on '
+    'the batch size N may guard `len(value) == N`.')
 TECHNIQUE = ("Python ast; table/idiom checks with def-use roles; linear forms for the candidate filter; shares C13's symbolic placement forms")
 ASSUMPTIONS = ["h5py: create_group raises ValueError on an existing name; mode 'a' never truncates; str is stored as UTF-8"]
 FILES = ["python/digital_rf/digital_metadata.py"]
